@@ -309,9 +309,9 @@ def resolveTys (Γ : Env) : TyList → Except Diag TyList
 end
 
 mutual
-/-- `param_cmp` (param.c).  C: there is NO case for `long` and none for `double`; C: for two
-function types the result type of the SECOND is never looked at
-(`func_cmp(one.params, one.ret, two.params, one.ret)`) -/
+/-- `param_cmp` (param.c).  C: there is NO case for `long` and none for `double`.  For two
+function types: `func_cmp(one.params, one.ret, two.params, two.ret)` (as repaired in 186dfd9;
+the pinned tree passed `one.ret` twice — `Lemmas/CheckRules.lean`, `paramCmpPinned`) -/
 def paramCmp (constCmp : Bool) (c1 : PCst) (t1 : Ty) (c2 : PCst) (t2 : Ty) : Bool :=
   if constCmp && c1 != c2 then false else
   match t1, t2 with
@@ -323,7 +323,7 @@ def paramCmp (constCmp : Bool) (c1 : PCst) (t1 : Ty) (c2 : PCst) (t2 : Ty) : Boo
   | .array ec1 e1, .array ec2 e2 => paramCmp false ec1 e1 ec2 e2
   | .enum a, .enum b => a == b
   | .record a, .record b => a == b
-  | .func ps1 rc1 r1, .func ps2 _ _ => paramListCmp true ps1 ps2 && paramCmp false rc1 r1 rc1 r1
+  | .func ps1 rc1 r1, .func ps2 rc2 r2 => paramListCmp true ps1 ps2 && paramCmp false rc1 r1 rc2 r2
   | _, _ => false
 /-- `param_list_cmp` -/
 def paramListCmp (constCmp : Bool) : TyList → TyList → Bool
@@ -504,14 +504,13 @@ def unRule : UnOp → Rule
   | .not => .notOp
   | .bnot => .binNot
 
-/-- the type cells of `expr_ass_check_type` / `expr_conv_ass_type`.
-C: the cell (int, double) yields DOUBLE (known defect of the pinned tree, C11/C01) -/
+/-- the type cells of `expr_ass_check_type` / `expr_conv_ass_type`: the result has the LEFT
+kind (the cell (int, double), DOUBLE in the pinned tree, was repaired in 8e26181) -/
 def assTy : CT → CT → Option CT
   | .val l, .val r =>
     match l, r with
     | .bool, .bool => some (.val .bool)
     | .char, .char => some (.val .char)
-    | .int, .double => some (.val .double)
     | .int, .enum _ => some (.val .int)
     | .string, .string => some (.val .string)
     | .enum a, .enum b => if a == b then some (.val (.enum a)) else none
